@@ -56,8 +56,11 @@ def step_lines(c, t):
     return L
 
 
-def begin_lines(c, label):
-    L = ["echo RUN %s" % label, "fresh"]
+def begin_lines(c, label, pre=None):
+    L = ["echo RUN %s" % label]
+    if c.get("prefix_per_run") and pre:
+        L.append("prefix %sP_%s" % (pre, label))     # output files of this run (analysis windows: runAve)
+    L.append("fresh")
     if c.get("it0"):
         L.append("setstep %d" % c["it0"])
     L += ["logmark"]
@@ -86,7 +89,7 @@ def scenario(c, d, runs=None):
         L.append("prefix %sout" % pre)
     for run in (runs or plan(c)):
         if run[0] == "U":
-            L += begin_lines(c, "U")
+            L += begin_lines(c, "U", pre)
             for t in range(T):
                 L += step_lines(c, t)
             L += ["save text %sU.colvars.state" % pre]
@@ -95,13 +98,13 @@ def scenario(c, d, runs=None):
             lab = "%d_%s" % (K, fmt)
             fa = "%sa_%s" % (pre, lab)
             fb = "%sb_%s" % (pre, lab)
-            L += begin_lines(c, "A_" + lab)
+            L += begin_lines(c, "A_" + lab, pre)
             for t in range(T):
                 L += step_lines(c, t)
                 if t == K:
                     L += ["save %s %s.colvars.state" % (fmt, fa)]
             L += ["save text %sA_%s.colvars.state" % (pre, lab)]
-            L += begin_lines(c, "B_" + lab)
+            L += begin_lines(c, "B_" + lab, pre)
             L += ["load %s" % fa, "save %s %s.colvars.state" % (fmt, fb)]
             for t in range(K, T):
                 L += step_lines(c, t)
@@ -229,3 +232,19 @@ def files_equal(pa, pb):
         return open(pa, "rb").read() == open(pb, "rb").read()
     except OSError:
         return False
+
+
+def runave_lines(path):
+    """lines of a running-average file: {step: (average, stddev)}"""
+    out = {}
+    try:
+        for l in open(path, errors="replace"):
+            w = l.split()
+            if len(w) >= 3 and not w[0].startswith("#"):
+                try:
+                    out[int(w[0])] = (float(w[1]), float(w[2]))
+                except ValueError:
+                    pass
+    except OSError:
+        return None
+    return out
